@@ -98,7 +98,7 @@ func c13(args []string) int {
 	alphabet := []int64{1, 2, P - 1, P, P + 1, 2 * P, 3*P + 1}
 	maxLen := 6
 	if f.Thorough() {
-		maxLen = 7
+		maxLen = 8
 	}
 	// 1. bounded-exhaustive Burst histories
 	nseq := 1
@@ -141,7 +141,7 @@ func c13(args []string) int {
 	out.Count("burst_exhaustive_histories", int64(out.Evaluations))
 	out.Count("sample_calls", calls)
 	// 2. random long histories with non-monotonic clocks, random parameters
-	nr := f.N(3000, 100000)
+	nr := f.N(20000, 1000000)
 	for i := 0; i < nr; i++ {
 		if !f.Mine(i) {
 			continue
